@@ -11,7 +11,8 @@ from . import c07, ma_util
 MA_ENCODINGS = {"float_nan": ([0.0, 1.0, 2.0], float("nan")),
                 "float10_nan": ([10.0, 20.0, 30.0], float("nan")),
                 "num_m1": ([0.0, 1.0, 2.0], -1.0),
-                "num_99": ([3.0, 5.0, 8.0], 99.0)}
+                "num_99": ([3.0, 5.0, 8.0], 99.0),
+                "str_zz": (["a", "b", "c"], "zz")}
 
 
 @st.composite
@@ -22,7 +23,8 @@ def _case(draw, kind):
         case["batch_size"] = 2
     case["g1"] = draw(st.integers(0, 10**6))
     case["g2"] = 10**6 + 1 + draw(st.integers(0, 10**6))
-    case["enc2"] = draw(st.sampled_from(["float10_nan", "num_m1", "num_99"]))
+    case["enc2"] = draw(st.sampled_from(["float10_nan", "num_m1", "num_99",
+                                         "str_zz"]))
     case["rs_kind"] = draw(st.sampled_from(["int", "int", "RandomState"]))
     return case
 
@@ -67,7 +69,10 @@ def _call(case, enc, gseed, repeat=False):
     K = case["n_classes"]
     classes = labels_[:K]
     X, y, cand_arg, annot_arg, AV, sel_rows = ma_util.args_of(case)
-    y_enc = np.full(y.shape, missing, dtype=float)
+    if isinstance(missing, str):
+        y_enc = np.full(y.shape, missing, dtype="U2")
+    else:
+        y_enc = np.full(y.shape, missing, dtype=float)
     for c in range(K):
         y_enc[y == c] = labels_[c]
     qs, kw = c07._build(case, list(range(K)))
@@ -116,7 +121,8 @@ def run_case(case):
         from . import c09
         trig = {"float10_nan": "numeric_classes_renamed",
                 "num_m1": "numeric_sentinel",
-                "num_99": "numeric_classes_renamed&numeric_sentinel"}[
+                "num_99": "numeric_classes_renamed&numeric_sentinel",
+                "str_zz": "string_labels"}[
                     case["enc2"]]
         labels.append(f"enc={case['enc2']}")
         k1 = "indices_differ"
